@@ -435,7 +435,10 @@ func (ego *list) Equals(another List) bool {
 }
 
 func (ego *list) Concat(another List) List {
-	newList := &list{val: append(ego.val, another.getVal().(*list).val...)}
+	other := another.getVal().(*list)
+	newList := &list{val: make([]field, 0, len(ego.val)+len(other.val))}
+	newList.val = append(newList.val, ego.val...)
+	newList.val = append(newList.val, other.val...)
 	newList.Init(newList)
 	return newList
 }
